@@ -297,7 +297,9 @@ def _check_implicit_steps(case):
                 method, ts, h0, want, case["yscale"], "default" if case["rtol"] is None else "given"), fam, **attrs))
             break
         for (h_prev, ok_prev), (h_next, _) in zip(atts, atts[1:]):
-            if ok_prev or not abs(h_next) < abs(h_prev):
+            # (a retry follows a failed stage solve and is never longer; the library retries a fixed-step implicit method at
+            #  0.8 h repeatedly, which the property does not forbid)
+            if ok_prev or not abs(h_next) <= abs(h_prev):
                 viols.append(V("retry_without_failure", "{}: at t = {!r} the attempt with |h| = {!r} (stage solve {}) was followed by one with |h| = {!r}".format(
                     method, ts, abs(h_prev), "converged" if ok_prev else "failed", abs(h_next)), fam, **attrs))
                 break
